@@ -375,6 +375,31 @@ def r10_catch_local_outlives_the_handler(ctx):
 COMPILER = "src/basilisp/lang/compiler/__init__.py"
 
 
+class _As:
+    """ctx proxy that files another property's rule under an id of this property."""
+
+    def __init__(self, ctx, rid):
+        self._ctx, self._rid = ctx, rid
+
+    def __getattr__(self, name):
+        return getattr(self._ctx, name)
+
+    def ob(self, _rid, *a, **k):
+        return self._ctx.ob(self._rid, *a, **k)
+
+
+@rule("C01.R12", floor=3)
+def r12_recur_rebinds_exactly_the_arguments_written(ctx):
+    """`recur` re-enters its arity with the values written in the recur form.  How the last of them is
+    treated -- as a value, or as the rest collection to be spread over the rest parameter -- is
+    decided by the variadic flag its recur point carries, which therefore has to be the flag of the
+    arity the recur point belongs to.  This is C08.R5's check (the generator function that builds a
+    recur point takes loop id and variadic flag from the same arity node), decided here as well
+    because a wrong flag makes a compiled program compute a value its source does not denote."""
+    from . import C08
+    C08.r5_recur_point_carries_the_flag_of_its_own_arity(_As(ctx, "C01.R12"))
+
+
 @rule("C01.R11", floor=1)
 def r11_every_top_level_form_yields_a_value(ctx):
     """compile_and_exec_form unrolls a top-level `do` into its forms and returns the value of the last
